@@ -119,7 +119,8 @@ fn main() {
             let seed: u64 = get("seed", "1").parse().expect("seed");
             let runs: usize = get("runs", "100").parse().expect("runs");
             let out = get("out", "/dev/stdout");
-            let lines = workloads::tracegen(&prop, seed, runs);
+            let only: Option<usize> = m.get("only").and_then(|o| o.parse().ok());
+            let lines = workloads::tracegen_only(&prop, seed, runs, only);
             let mut f = std::io::BufWriter::new(std::fs::File::create(&out).expect("create output"));
             for l in &lines {
                 writeln!(f, "{}", l).unwrap();
@@ -154,6 +155,12 @@ fn main() {
             let stats = serde_json::json!({"runs": lines.len(), "accepted": ok, "rejected": err, "panics": panics, "distinct_nontrivial": distinct.len(), "samples": samples});
             std::fs::write(format!("{out}.stats.json"), stats.to_string()).expect("write stats");
             eprintln!("parsegen: prop={prop} seed={seed} cases={} ok={ok} err={err} panics={panics}", lines.len());
+        }
+        "parse-one" => {
+            // record one from_str call on the text in --text-file (replaying a recorded parse violation)
+            let text = std::fs::read_to_string(get("text-file", "/dev/stdin")).expect("read text");
+            let rec = parse_wl::record(1, &get("prop", "C09"), &text, None, 0, "replay");
+            std::fs::write(get("out", "/dev/stdout"), format!("{rec}\n")).expect("write");
         }
         "corpus" => {
             let seed: u64 = get("seed", "1").parse().expect("seed");
